@@ -1163,7 +1163,11 @@ pub fn c12_eval(bytes: &[u8], want: bool) -> CaseReport {
 	let mut plans: Vec<FaultPlan> = (0..nops.min(60)).map(|i| FaultPlan { one_shot: Some(i), persistent: vec![] }).collect();
 	// persistent fault sets on member locks
 	let sem = Sem::new(&base.case.world);
-	let tflat = match base.case.steps[base.fault_step].1.clone() {
+	let faulted_step = match base.case.steps[base.fault_step].1.clone() {
+		Step::UnwindingDrop { inner } => *inner,
+		s => s,
+	};
+	let tflat = match faulted_step {
 		Step::Acquire { target, .. } | Step::Scoped { target, .. } => sem.target_flat(target).leaves(),
 		_ => match base.case.steps.iter().find_map(|(_, s)| if let Step::Acquire { target, .. } = s { Some(*target) } else { None }) {
 			Some(t) => sem.target_flat(t).leaves(),
@@ -1447,6 +1451,16 @@ pub fn types_pairs_for(prop: &str, tier: Tier) -> Vec<crate::tyeng::Pair> {
 			.collect(),
 		"C15" => {
 			let mut v = crate::tyeng::families_c15(&subjects);
+			if tier == Tier::Quick {
+				// the scoped-closure escape (D3) depends on the signature of each
+				// scoped function separately: every API variant in both tiers
+				let have: std::collections::HashSet<String> = v.iter().map(|p| format!("{}|{}", p.family, p.name)).collect();
+				v.extend(
+					crate::tyeng::families_c15(&crate::tyeng::Subj::all_with_apis())
+						.into_iter()
+						.filter(|p| p.family.starts_with("D3-") && !have.contains(&format!("{}|{}", p.family, p.name))),
+				);
+			}
 			// "constructors that skip the duplicate check ... require unsafe or owned inputs"
 			v.extend(crate::tyeng::families_owned_lockable().into_iter().map(|mut p| {
 				p.prop = "C15".into();
@@ -1509,7 +1523,7 @@ fn types_report(tc: &crate::tyeng::Toolchain, p: &crate::tyeng::Pair, want: bool
 			});
 			rep.replay = Some(json!({"engine": "types", "pair": p}));
 		}
-		PairOutcome::GeneratorError(e) if p.family.starts_with("S1-") => {
+		PairOutcome::GeneratorError(e) if p.family.len() > 2 && p.family.starts_with('S') && p.family.as_bytes()[1].is_ascii_digit() => {
 			if std::env::var_os("HLV_DEBUG_TYPES").is_some() {
 				eprintln!("S1 not expressible: {}: {}", p.name, e.chars().take(400).collect::<String>());
 			}
@@ -1566,6 +1580,11 @@ pub fn surface_pairs(ctx: &mut CheckCtx, prop: &str, pairs: &mut Vec<crate::tyen
 			let n0 = pairs.len();
 			if prop != "C14" && prop != "C02" && prop != "C01" {
 				pairs.extend(crate::surface::families_surface(prop, &ms));
+			}
+			if prop == "C07" {
+				let (cp, seen) = crate::surface::families_surface_constructors(prop, &doc);
+				ctx.extra.insert("api_surface_constructors".into(), json!({"constructors_seen": seen, "pairs_generated": cp.len(), "names": cp.iter().map(|p| p.name.clone()).collect::<Vec<_>>()}));
+				pairs.extend(cp);
 			}
 			if prop == "C15" {
 				let (kp, seen) = crate::surface::families_surface_keyless_data(prop, &doc);
